@@ -11,6 +11,10 @@ pub mod c04;
 pub mod c05;
 pub mod c06;
 pub mod c07;
+pub mod c08;
+pub mod c09;
+pub mod c10;
+pub mod c11;
 pub mod c12;
 pub mod c13;
 pub mod c14;
@@ -18,6 +22,8 @@ pub mod c15;
 pub mod c16;
 pub mod c17;
 pub mod c18;
+pub mod c19;
+pub mod c20;
 
 pub struct PropRun {
     pub parts: Vec<PartReport>,
@@ -25,7 +31,7 @@ pub struct PropRun {
     pub extra: serde_json::Value,
 }
 
-pub const ALL: [&str; 13] = ["C01", "C02", "C04", "C05", "C06", "C07", "C12", "C13", "C14", "C15", "C16", "C17", "C18"];
+pub const ALL: [&str; 20] = ["C01", "C02", "C03", "C04", "C05", "C06", "C07", "C08", "C09", "C10", "C11", "C12", "C13", "C14", "C15", "C16", "C17", "C18", "C19", "C20"];
 
 pub fn run(env: &Env) -> Option<PropRun> {
     match env.prop.as_str() {
@@ -36,6 +42,10 @@ pub fn run(env: &Env) -> Option<PropRun> {
         "C07" => Some(c07::run(env)),
         "C01" => Some(c01::run(env)),
         "C02" => Some(c02::run(env)),
+        "C08" => Some(c08::run(env)),
+        "C09" => Some(c09::run(env)),
+        "C10" => Some(c10::run(env)),
+        "C11" => Some(c11::run(env)),
         "C12" => Some(c12::run(env)),
         "C13" => Some(c13::run(env)),
         "C14" => Some(c14::run(env)),
@@ -43,6 +53,8 @@ pub fn run(env: &Env) -> Option<PropRun> {
         "C16" => Some(c16::run(env)),
         "C17" => Some(c17::run(env)),
         "C18" => Some(c18::run(env)),
+        "C19" => Some(c19::run(env)),
+        "C20" => Some(c20::run(env)),
         _ => None,
     }
 }
@@ -56,6 +68,10 @@ pub fn judge(prop: &str, part: &str, case: &Case, tally: &mut Tally) -> Option<V
         "C07" => Some(c07::judge(part, case, tally)),
         "C01" => Some(c01::judge(part, case, tally)),
         "C02" => Some(c02::judge(part, case, tally)),
+        "C08" => Some(c08::judge(part, case, tally)),
+        "C09" => Some(c09::judge(part, case, tally)),
+        "C10" => Some(c10::judge(part, case, tally)),
+        "C11" => Some(c11::judge(part, case, tally)),
         "C12" => Some(c12::judge(part, case, tally)),
         "C13" => Some(c13::judge(part, case, tally)),
         "C14" => Some(c14::judge(part, case, tally)),
@@ -63,6 +79,8 @@ pub fn judge(prop: &str, part: &str, case: &Case, tally: &mut Tally) -> Option<V
         "C16" => Some(c16::judge(part, case, tally)),
         "C17" => Some(c17::judge(part, case, tally)),
         "C18" => Some(c18::judge(part, case, tally)),
+        "C19" => Some(c19::judge(part, case, tally)),
+        "C20" => Some(c20::judge(part, case, tally)),
         _ => None,
     }
 }
